@@ -161,6 +161,7 @@ type vfbNet struct {
 	onSyncSend func(server *vfbNode, b *proto.BeaconPacket)
 	onHook     func(name string, n *vfbNode, args []any)
 	onOpen     func(n *vfbNode) // a node's store has just been (re)opened, before any Put
+	failPut    func(n *vfbNode, b *common.Beacon) error // fault injection at the base store (nil = none)
 	id         int
 	// adversary-served sync streams: addr -> function
 	syncServers map[string]func(ctx context.Context, req *proto.SyncRequest, out chan<- *proto.BeaconPacket)
@@ -506,6 +507,12 @@ func vfbCaller() string {
 }
 
 func (s *vfbTapStore) Put(ctx context.Context, b *common.Beacon) error {
+	if s.net.failPut != nil { // injected storage fault: the write never reaches the store, no oracle sees it
+		if err := s.net.failPut(s.node, b); err != nil {
+			s.net.record(vfbEvent{Kind: "put-failed", Node: s.node.pos, From: -1, Round: b.Round, Err: err.Error(), Idx: -1})
+			return err
+		}
+	}
 	src := vfbCaller()
 	cp := &common.Beacon{Round: b.Round, Signature: append([]byte(nil), b.Signature...), PreviousSig: append([]byte(nil), b.PreviousSig...)}
 	seq := s.net.record(vfbEvent{Kind: "put", Node: s.node.pos, From: -1, Round: b.Round, Prev: cp.PreviousSig, Sig: cp.Signature, Src: src, Idx: -1, Clock: s.node.clk.Now().Unix()})
